@@ -209,6 +209,14 @@ class Model(CallsMixin, BuiltinsMixin):
                 return out
         if both_int and sym in ('+', '-', '*', '//', '%', '**', '<<'):
             pa, pb = a.p, b.p
+            if sym == '%' and pb is not None:
+                # x % n with a positive modulus is in [0, n)
+                lb_ = lower_bound(pb, self.I.opts.get('lower_bounds'))
+                if lb_ is not None and lb_ > 0:
+                    r_ = INT(fn_atom('mod', pa, pb)) if pa is not None \
+                        else INT()
+                    r_.nonneg = True
+                    return r_
             if pa is None or pb is None:
                 return INT()
             if sym == '+':
@@ -600,8 +608,10 @@ class Model(CallsMixin, BuiltinsMixin):
         if oa is None or ob is None:
             # a product with the weighted triangular / diagonal factor carries
             # the weights (it is not an orthonormal factor)
-            if 'weighted' in (oa, ob):
-                return 'weighted'
+            other = b if oa == 'weighted' else (a if ob == 'weighted'
+                                                else None)
+            if other is not None and other.note == 'input':
+                return 'weighted'       # weights times raw caller data
             return None
         tbl = {
             ('cols', 'sigma'): 'weighted', ('sigma', 'rows'): 'weighted',
